@@ -541,15 +541,6 @@ class FindModuleCache:
                         continue
                     return path, True
 
-            # In namespace mode, register a potential namespace package
-            if self.options and self.options.namespace_packages:
-                if (
-                    not has_init
-                    and fscache.exists_case(base_path, dir_prefix)
-                    and not fscache.isfile_case(base_path, dir_prefix)
-                ):
-                    near_misses.append((base_path, dir_prefix))
-
             # No package, look for module.
             for extension in PYTHON_EXTENSIONS:
                 path = base_path + extension
@@ -558,6 +549,17 @@ class FindModuleCache:
                         near_misses.append((path, dir_prefix))
                         continue
                     return path, True
+
+            # In namespace mode, register a potential namespace package. This comes after
+            # the module lookup: like at runtime, baz.py wins over a directory baz/ without
+            # __init__ in the same search path entry.
+            if self.options and self.options.namespace_packages:
+                if (
+                    not has_init
+                    and fscache.exists_case(base_path, dir_prefix)
+                    and not fscache.isfile_case(base_path, dir_prefix)
+                ):
+                    near_misses.append((base_path, dir_prefix))
 
         # In namespace mode, re-check those entries that had 'verify'.
         # Assume search path entries xxx, yyy and zzz, and we're
